@@ -21,9 +21,11 @@ PROP = dict(
          "every non-empty subset of {COUNTING n (n=1..4), ON WATERMARK, ON END OF STREAM} (19 configurations) x every valid "
          "changelog with non-decreasing watermarks and no late records over 2 ids x 2 instants x {record, retraction, "
          "watermark} (the two ids carry the same instants in two different *time.Location) of length <= 4 (quick; length 5 on "
-         "a rotating fifth of the configurations) / <= 5 (thorough; 6 on a quarter, 7 on one); plus 12 configurations the SQL "
+         "a rotating fifth of the configurations) / <= 5 (thorough; 6 on a quarter, 7 on one); the same with a NULL aggregate "
+         "argument for one id (one length shorter); plus 12 configurations the SQL "
          "layer cannot build (nested/repeated members, n=0, empty Multi) and random streams (up to 40/200 messages, 1-4 ids, "
-         "1-4 instants, 4 locations, NULL arguments, count and sum, records without event time, late records). Compared: the "
+         "1-4 instants, 4 locations, NULL arguments, count and sum, records without event time, late records); `sgb …` = the real "
+         "SimpleGroupBy on the same streams (rows sorted by key on both sides). Compared: the "
          "exact emitted message sequence (model vs implementation) and, by the Lean oracle on the implementation's output, "
          "consolidated output = groupSpec(input). distinct_nontrivial = lines whose output has a retraction or a result "
          "emitted before a forwarded watermark.",
